@@ -47,6 +47,13 @@ impl S {
     }
 }
 
+/// Stub for `alloc::fmt::format` (error-message formatting): returns an empty String.
+/// Part of every claim: the *text* of error messages is not modelled.
+#[cfg(kani)]
+pub fn stub_format(_args: std::fmt::Arguments<'_>) -> String {
+    String::new()
+}
+
 #[cfg(kani)]
 #[macro_export]
 macro_rules! vcover {
@@ -138,6 +145,7 @@ macro_rules! harness {
     ($name:ident, |$s:ident| $body:block) => {
         #[cfg(kani)]
         #[kani::proof]
+        #[kani::stub(alloc::fmt::format, $crate::vsrc::stub_format)]
         pub fn $name() {
             let mut src = $crate::vsrc::S;
             let $s = &mut src;
